@@ -403,10 +403,10 @@ for _k, _v in _EXTRA7.items():
     CHECKS[_k]["rule"] += _v
 
 # cold-start legs (first use of an operation in a fresh process by several threads at once)
-for _k in ["C02", "C11", "C12", "C13", "C14"]:
+for _k in ["C01", "C02", "C09", "C11", "C12", "C13", "C14"]:
     CHECKS[_k]["legs"].append({"name": "cold-start"})
     CHECKS[_k]["rule"] += (" Cold-start leg: hundreds of short child processes in which the FIRST crate operation (the property's own: "
-                           "inverse/forward transform or product at a random size, HashToPoint, batch inversion, verify on a crafted triple) "
+                           "inverse/forward transform or product at a random size, HashToPoint, batch inversion, verify on a crafted triple, the sampler's building blocks, import of a key followed by sign and verify) "
                            "is made by 2..16 threads released together by a barrier; inputs and expected results are computed beforehand "
                            "with the harness' reference code only, so lazily initialised process-wide state is hit in its first-use window.")
 
